@@ -88,6 +88,10 @@ def _gen_graph(rng, gtype):
         R = rng.choice([0, 1, 2, 3, 5, 9, 10, 11])
         es = [[u, v] for u in range(1, L + 1) for v in range(1, R + 1)
               if rng.random() < p]
+        if rng.random() < 0.1:
+            # the class that stores no edges (command line 'complete L R')
+            return {"L": min(L, 6), "R": min(R, 6), "edges": [],
+                    "complete": True}
         return {"L": L, "R": R, "edges": es}
     n = size
     es = []
@@ -103,6 +107,8 @@ def _gen_graph(rng, gtype):
                 if (u != v or rng.random() < 0.1) and rng.random() < p / 2:
                     es.append([u, v])
     rng.shuffle(es)
+    if gtype == "simple" and rng.random() < 0.05:
+        return {"n": min(n, 9), "edges": [], "complete": True}
     return {"n": n, "edges": es}
 
 
@@ -137,6 +143,8 @@ def generate(rng, config):
         case["faults"] = [{"kind": "truncate_all"}]
         g = case["graph"]
         # keep files short
+        if g.get("complete"):
+            g.pop("complete")
         if "n" in g and g["n"] > 7:
             g["n"] = 7
             g["edges"] = [e for e in g["edges"] if max(e) <= 7]
@@ -187,6 +195,21 @@ def _mk(case):
     g = case["graph"]
     t = case["type"]
     name = case.get("name")
+    if t == "bipartite" and g.get("complete"):
+        from cnfgen.graphs import CompleteBipartiteGraph
+        G = CompleteBipartiteGraph(g["L"], g["R"])
+        ref = RefBipartite(g["L"], g["R"])
+        for u in range(1, g["L"] + 1):
+            for v in range(1, g["R"] + 1):
+                ref.add(u, v)
+        return G, ref
+    if t == "simple" and g.get("complete"):
+        G = Graph.complete_graph(g["n"])
+        ref = RefSimple(g["n"])
+        for u in range(1, g["n"] + 1):
+            for v in range(u + 1, g["n"] + 1):
+                ref.add(u, v)
+        return G, ref
     if t == "bipartite":
         G = BipartiteGraph(g["L"], g["R"]) if name is None else \
             BipartiteGraph(g["L"], g["R"], name)
